@@ -69,6 +69,7 @@ type Engine struct {
 	pkgInitHook map[string]func(*Exec, *ssa.Package)
 	nativeCache sync.Map
 	noopPkgs    []string
+	mergeFns    map[string]bool // spec "merge_funcs": functions whose symbolic tests are merged into the return value (merge.go)
 }
 
 type Config struct {
